@@ -1,3 +1,254 @@
+(* C04 property theorems.  Nothing but statements closed by `exact`, each followed by
+   Print Assumptions.  `class_table` is the table regenerated from /repo's source on this run
+   (build/coq/C04/Gen.v); `meta` is any description of the composite classes (which parameter holds
+   the named components and under which key _set_params looks for the whole list); `sk_meta`
+   (Cases.v) is the one of sktime 0.6.0 that the correspondence run uses. *)
 From Coq Require Import ZArith List Bool String.
-Require Import SkV.Lib.Base SkV.C04.Model SkV.C04.Table SkV.C04.Known SkV.C04.Gen SkV.C04.Bridge SkV.C04.Proofs.
+Require Import SkV.Lib.Base SkV.C04.Model SkV.C04.Cases SkV.C04.Table SkV.C04.Known SkV.C04.Gen
+               SkV.C04.Bridge SkV.C04.Proofs SkV.C04.SetGet SkV.C04.State.
 Import ListNotations.
+Open Scope string_scope.
+Open Scope list_scope.
+
+(* ---- parameters: construction, get_params ---------------------------------------------------- *)
+
+(* a constructor that stores every argument under its own name: get_params(deep=False) returns
+   exactly the constructor arguments, in order, each under its own name *)
+Theorem C04_get_after_construct : forall meta cls args,
+  get_params meta false (construct cls args) = map (fun kvp => ([fst kvp], snd kvp)) args.
+Proof. exact get_after_construct. Qed.
+Print Assumptions C04_get_after_construct.
+
+(* ... and get_params(deep=True) still contains every argument under its own name *)
+Theorem C04_get_deep_contains_args : forall meta cls args k v,
+  In (k, v) args -> In ([k], v) (get_params meta true (construct cls args)).
+Proof. exact get_deep_contains_args. Qed.
+Print Assumptions C04_get_deep_contains_args.
+
+(* every key of get_params(deep=True), of any depth, denotes the value found by walking the tree
+   along the key: component__param is the parameter `param` of the component `component` *)
+Theorem C04_nested_get_reads_component_param : forall meta (p : list string) e v,
+  wf meta e = true -> In (p, v) (get_params meta true e) -> get_path meta p e = Some v.
+Proof. exact get_params_reads_path. Qed.
+Print Assumptions C04_nested_get_reads_component_param.
+
+(* ---- set_params( **get_params() ) and clone ---------------------------------------------------- *)
+
+(* est.set_params( **est.get_params() ) succeeds and changes nothing, for every well-formed tree of
+   any nesting depth: the call carries the whole component list, every component under its name,
+   every plain parameter and every nested key at once *)
+Theorem C04_set_get_id : forall meta e,
+  wf meta e = true -> set_params meta e (get_params meta true e) = Ok e.
+Proof. exact set_get_id. Qed.
+Print Assumptions C04_set_get_id.
+
+(* clone(est) has the same class and equal parameters, at every depth *)
+Theorem C04_clone_equal_params : forall meta deep e,
+  get_params meta deep (clone_est e) = get_params meta deep e /\ cls_of (clone_est e) = cls_of e.
+Proof. exact clone_equal_params. Qed.
+Print Assumptions C04_clone_equal_params.
+
+(* ---- unknown names ---------------------------------------------------------------------------- *)
+
+Theorem C04_unknown_name_rejected : forall meta e k v,
+  ~ In k (param_names e) -> ~ In k (step_names meta e) ->
+  (forall a sp, meta (cls_of e) = Some (a, sp) -> k <> a) ->
+  set_params meta e [([k], v)] = Err.
+Proof. exact unknown_flat_rejected. Qed.
+Print Assumptions C04_unknown_name_rejected.
+
+Theorem C04_unknown_component_rejected : forall meta e h r rest v,
+  ~ In h (param_names e) -> ~ In h (step_names meta e) ->
+  set_params meta e [(h :: r :: rest, v)] = Err.
+Proof. exact unknown_head_rejected. Qed.
+Print Assumptions C04_unknown_component_rejected.
+
+(* a name unknown to a component at ANY depth makes the whole call fail *)
+Theorem C04_unknown_nested_name_rejected : forall meta e h c r rest v,
+  component meta e h = Some c -> set_params meta c [(r :: rest, v)] = Err ->
+  set_params meta e [(h :: r :: rest, v)] = Err.
+Proof. exact unknown_nested_rejected. Qed.
+Print Assumptions C04_unknown_nested_name_rejected.
+
+Theorem C04_nested_key_below_non_estimator_rejected : forall meta e h r rest v,
+  component meta e h = None -> set_params meta e [(h :: r :: rest, v)] = Err.
+Proof. exact nested_below_non_estimator_rejected. Qed.
+Print Assumptions C04_nested_key_below_non_estimator_rejected.
+
+(* ---- component__param lens laws, to any depth --------------------------------------------------- *)
+
+(* what was written is read back *)
+Theorem C04_nested_get_after_set : forall meta (p : list string) e v e',
+  set_params meta e [(p, v)] = Ok e' -> wf meta e' = true -> public_key meta p e ->
+  get_path meta p e' = Some v.
+Proof. exact get_after_set. Qed.
+Print Assumptions C04_nested_get_after_set.
+
+(* writing what is already there changes nothing *)
+Theorem C04_nested_set_same_is_noop : forall meta (p : list string) e v,
+  wf meta e = true -> get_path meta p e = Some v -> set_params meta e [(p, v)] = Ok e.
+Proof. exact set_same_is_noop. Qed.
+Print Assumptions C04_nested_set_same_is_noop.
+
+(* a write leaves every independent key untouched *)
+Theorem C04_nested_set_preserves_other_keys : forall meta (p q : list string) e v e',
+  set_params meta e [(p, v)] = Ok e' -> indep meta p q e -> get_path meta q e' = get_path meta q e.
+Proof. exact set_preserves_other_keys. Qed.
+Print Assumptions C04_nested_set_preserves_other_keys.
+
+(* ---- whole components by name, documented order ------------------------------------------------ *)
+
+Theorem C04_replace_component_by_name : forall meta e n c,
+  In n (step_names meta e) ->
+  (forall a sp, meta (cls_of e) = Some (a, sp) -> n <> a) ->
+  set_params meta e [([n], VEst c)] = Ok (set_steps meta e (put_e n c (steps_of meta e))).
+Proof. exact replace_component_by_name. Qed.
+Print Assumptions C04_replace_component_by_name.
+
+(* the replaced component is read back under its name; names and all other components unchanged *)
+Theorem C04_replaced_component_is_read_back : forall meta e n c,
+  In n (step_names meta e) ->
+  assoc_e n (steps_of meta (set_steps meta e (put_e n c (steps_of meta e)))) = Some c /\
+  step_names meta (set_steps meta e (put_e n c (steps_of meta e))) = step_names meta e /\
+  (forall n', n' <> n ->
+     assoc_e n' (steps_of meta (set_steps meta e (put_e n c (steps_of meta e)))) =
+     assoc_e n' (steps_of meta e)).
+Proof. exact replaced_component_is_read_back. Qed.
+Print Assumptions C04_replaced_component_is_read_back.
+
+(* one call carrying the whole list L, a replacement c for the component n of L and a parameter
+   n__k = v - in any of the six dict orders - acts as: set the list, then replace n in THAT list,
+   then set k on THAT replacement *)
+Theorem C04_order_list_component_param : forall meta e sp n k L c v,
+  meta (cls_of e) = Some (sp, sp) -> In sp (param_names e) -> In n (map fst L) -> n <> sp ->
+  let kL : kv := ([sp], VSteps L) in
+  let kC : kv := ([n], VEst c) in
+  let kP : kv := ([n; k], v) in
+  let e1 := set_steps meta e L in
+  let e2 := set_steps meta e1 (put_e n c (steps_of meta e1)) in
+  (set_params meta e [kL] = Ok e1 /\ set_params meta e1 [kC] = Ok e2) /\
+  forall kvs, In kvs [[kL; kC; kP]; [kL; kP; kC]; [kC; kL; kP]; [kC; kP; kL]; [kP; kL; kC]; [kP; kC; kL]] ->
+    set_params meta e kvs = set_params meta e2 [kP].
+Proof.
+  intros meta e sp n k L c v Hm Hsp Hn Hne. cbv zeta. split; [split|].
+  - exact (order_first meta e sp L Hm).
+  - exact (order_second meta e sp n L c Hm Hsp Hn Hne).
+  - exact (order_list_component_param meta e sp n k L c v Hm Hsp Hn Hne).
+Qed.
+Print Assumptions C04_order_list_component_param.
+
+(* ---- component names ----------------------------------------------------------------------------- *)
+
+(* _check_names accepts exactly: distinct names, none equal to a constructor parameter, none
+   containing "__" *)
+Theorem C04_names_validated : forall meta e dunder,
+  check_names meta e dunder = true <->
+  NoDup (step_names meta e) /\
+  (forall n, In n (step_names meta e) -> ~ In n (param_names e)) /\
+  (forall n, In n (step_names meta e) -> dunder n = false).
+Proof. exact names_validated. Qed.
+Print Assumptions C04_names_validated.
+
+(* ---- fitted state -------------------------------------------------------------------------------- *)
+
+Theorem C04_fresh_or_cloned_not_fitted : forall e o,
+  o_fitted (fresh e) = false /\
+  o_fitted (fst (step o EClone)) = false /\ snd (step o EClone) = NewObject.
+Proof. intros e o. split; [exact (fresh_not_fitted e)|exact (cloned_not_fitted o)]. Qed.
+Print Assumptions C04_fresh_or_cloned_not_fitted.
+
+(* every apply-type method after ANY history without a successful fit (failed fits, other
+   apply-type calls, clones) raises NotFittedError and changes nothing *)
+Theorem C04_apply_before_fit_raises : forall o evs m,
+  o_fitted o = false -> forallb (fun ev => negb (successful_fit ev)) evs = true ->
+  let o' := fst (run o evs) in
+  snd (step o' (EApply m)) = NotFitted /\ fst (step o' (EApply m)) = o'.
+Proof. exact apply_before_fit_raises. Qed.
+Print Assumptions C04_apply_before_fit_raises.
+
+(* whatever happened before (including successful fits), after a clone and no successful fit since,
+   the apply-type call raises NotFittedError *)
+Theorem C04_apply_after_clone_raises : forall o before between m after,
+  forallb (fun ev => negb (successful_fit ev)) between = true ->
+  nth (List.length before + 1 + List.length between)
+      (snd (run o (before ++ [EClone] ++ between ++ [EApply m] ++ after))) Result = NotFitted.
+Proof. exact apply_after_clone_raises. Qed.
+Print Assumptions C04_apply_after_clone_raises.
+
+Theorem C04_fit_returns_self_sets_flag_keeps_params : forall meta o deep,
+  let o' := fst (step o (EFit true)) in
+  snd (step o (EFit true)) = ReturnsSelf /\ o_fitted o' = true /\ o_est o' = o_est o /\
+  get_params meta deep (o_est o') = get_params meta deep (o_est o).
+Proof. exact fit_returns_self_sets_flag_keeps_params. Qed.
+Print Assumptions C04_fit_returns_self_sets_flag_keeps_params.
+
+Theorem C04_clone_of_fitted_is_unfitted_with_equal_params : forall meta deep o,
+  let o' := fst (step (fst (step o (EFit true))) EClone) in
+  o_fitted o' = false /\ get_params meta deep (o_est o') = get_params meta deep (o_est o).
+Proof. exact clone_after_fit_unfitted_same_params. Qed.
+Print Assumptions C04_clone_of_fitted_is_unfitted_with_equal_params.
+
+(* ---- the class table regenerated from /repo on this run (finite, vm_compute) ------------------- *)
+
+(* every constructor parameter of every estimator class of sktime/**/*.py is stored as passed under
+   its own name (directly, through a reviewed identity-or-raise validator, or through parent
+   constructors forwarding it under that name), except the (class, parameter) pairs of known_ctor *)
+Theorem C04_all_classes_store_verbatim_or_known :
+  forall row, In row class_table ->
+    stores_ok_or_known identity_validators known_ctor class_table row = true.
+Proof. exact all_classes_store_verbatim_or_known. Qed.
+Print Assumptions C04_all_classes_store_verbatim_or_known.
+
+(* what that boolean means when no exception is used *)
+Theorem C04_stores_ok_means_stored_as_passed : forall vals t fuel cls p st,
+  param_ok vals [] t fuel cls p st = true -> stored_verbatim vals t p st.
+Proof. exact param_ok_sound. Qed.
+Print Assumptions C04_stores_ok_means_stored_as_passed.
+
+(* every apply-type method of every class reaches the fitted-state guard before touching fitted
+   state on every completing path (or is abstract / scikit-learn's), except known_guard (open
+   findings) and benign_guard (reviewed compliant, confirmed dynamically) *)
+Theorem C04_all_apply_methods_guarded_or_known : forall row m g,
+  In row class_table -> In (m, g) (r_methods row) ->
+  (exists o, g = GG o \/ g = GA o \/ g = GX o) \/
+  (exists o, (g = GR o \/ exists w, g = GU o w) /\ gmem guard_exceptions (r_key row) o m = true).
+Proof. exact apply_method_guard_first_or_known. Qed.
+Print Assumptions C04_all_apply_methods_guarded_or_known.
+
+(* no code reachable from fit or an apply-type method assigns to a constructor parameter, except
+   the (owner, parameter) pairs of known_mutation *)
+Theorem C04_no_method_reassigns_a_parameter_or_known : forall row e o q,
+  In row class_table -> In (e, o, q) (r_mutates row) -> In (o, q) known_mutation.
+Proof. exact parameter_reassignment_known. Qed.
+Print Assumptions C04_no_method_reassigns_a_parameter_or_known.
+
+(* ---- non-vacuity --------------------------------------------------------------------------------- *)
+(* a depth-3 composition of sktime classes is well formed, so the hypotheses above are satisfiable;
+   the class table is not empty and more than half of its rows need no exception at all *)
+Definition ex_tree : est :=
+  Est "TransformedTargetForecaster"
+    [("steps", VSteps
+       [("a", Est "Detrender" [("forecaster", VEst (Est "PolynomialTrendForecaster"
+                                  [("degree", VAtom (AInt 2)); ("regressor", VAtom ANone);
+                                   ("with_intercept", VAtom (AInt 1))]))]);
+        ("f", Est "EnsembleForecaster"
+                [("aggfunc", VAtom (AStr "mean"));
+                 ("forecasters", VSteps [("n1", Est "NaiveForecaster" [("sp", VAtom (AInt 1));
+                                                                       ("strategy", VAtom (AStr "last"));
+                                                                       ("window_length", VAtom ANone)])]);
+                 ("n_jobs", VAtom ANone)])])].
+
+Example C04_nonvacuous :
+  wf sk_meta ex_tree = true /\
+  List.length (get_params sk_meta true ex_tree) = 14%nat /\
+  get_path sk_meta ["f"; "n1"; "strategy"] ex_tree = Some (VAtom (AStr "last")) /\
+  (exists e', set_params sk_meta ex_tree [(["f"; "n1"; "strategy"], VAtom (AStr "mean"))] = Ok e' /\
+              get_path sk_meta ["f"; "n1"; "strategy"] e' = Some (VAtom (AStr "mean"))) /\
+  set_params sk_meta ex_tree [(["f"; "zz"; "strategy"], VAtom ANone)] = Err /\
+  snd (run (fresh ex_tree) [EApply "predict"; EFit true; EApply "predict"; EClone; EApply "predict"]) =
+    [NotFitted; ReturnsSelf; Result; NewObject; NotFitted] /\
+  (100 <=? n_rows)%nat = true /\ (n_rows <=? 2 * n_rows_clean)%nat = true.
+Proof.
+  repeat split; try (vm_compute; reflexivity).
+  eexists. split; vm_compute; reflexivity.
+Qed.
